@@ -129,6 +129,34 @@ namespace
         node.add_mesh_part(ps.name, vm::build_part<MeshType>(ps, M, o.qbits + 3 * o.depth));
       }
       else c.excluded("3D mesh part with topology containing cells (documented as not implemented)");
+      // 2D: one closed boundary loop as a 1D part with own topology whose first vertex is doubled (parametrised closed curve)
+      if(dim == 2 && !bf.empty())
+      {
+        std::map<Index, std::vector<Index>> at; // boundary vertex -> boundary edges
+        for(Index e : bf) for(int j = 0; j < 2; ++j) at[M.tup(1, 0, e)[j]].push_back(e);
+        bool simple = true; for(auto& x : at) if(x.second.size() != 2) simple = false;
+        if(simple)
+        {
+          vm::PartSpec ps; ps.name = "loop"; ps.topo = true; ps.attr = true;
+          Index e = bf[size_t(v) % bf.size()], v0 = M.tup(1, 0, e)[v & 1], cur = v0;
+          do
+          {
+            const Index nxt = (M.tup(1, 0, e)[0] == cur) ? M.tup(1, 0, e)[1] : M.tup(1, 0, e)[0];
+            const Index li = Index(ps.trg[0].size());
+            ps.trg[0].push_back(cur); ps.trg[1].push_back(e);
+            if((v >> 1) & 1) ps.ents[1].push_back({li, li + 1}); else ps.ents[1].push_back({li + 1, li});
+            cur = nxt;
+            e = (at[cur][0] == e) ? at[cur][1] : at[cur][0];
+          } while(cur != v0);
+          ps.trg[0].push_back(v0); // the doubled vertex closes the curve
+          auto part = vm::build_part<MeshType>(ps, M, o.qbits + 3 * o.depth);
+          typedef typename PartType::AttributeSetType AS;
+          std::unique_ptr<AS> as(new AS(Index(ps.trg[0].size()), 1));
+          for(Index i = 0; i < Index(ps.trg[0].size()); ++i) (*as)(i, 0) = double(i);
+          part->add_attribute(std::move(as), "param");
+          node.add_mesh_part(ps.name, std::move(part));
+        }
+      }
     }
 
     /// composes a nested part with its parent part
@@ -168,6 +196,24 @@ namespace
         const double want = std::ldexp(double(F.vtx[size_t(P.trg[0][size_t(i)])][size_t(j)]), -qtot);
         if(it->second[size_t(i) * size_t(ad) + size_t(j)] != want)
         { r.fail(w + ".attribute-value", "part vertex #" + vm::str(i) + " attribute component " + vm::str(j) + " = " + vm::str(it->second[size_t(i) * size_t(ad) + size_t(j)]) + ", coordinate of its target vertex is " + vm::str(want)); return; }
+      }
+    }
+
+    /// curve parameter of the closed loop part: equidistant values, every part edge joins consecutive values
+    static void check_param(const vm::PPart& P, vm::Rep& r, const std::string& w)
+    {
+      auto it = P.attr.find("param");
+      if(it == P.attr.end()) { r.fail(w + ".param-lost", "attribute 'param' missing after refinement"); return; }
+      const std::vector<double>& a = it->second;
+      if(a.size() != size_t(P.n[0]) || a.size() < 2) { r.fail(w + ".param-size", "attribute 'param' has wrong size"); return; }
+      std::vector<double> sv(a); std::sort(sv.begin(), sv.end());
+      const double h = (sv.back() - sv.front()) / double(sv.size() - 1);
+      for(size_t i = 0; i + 1 < sv.size(); ++i) if(sv[i + 1] - sv[i] != h) { r.fail(w + ".param-values", "curve parameters are not equidistant after refinement"); return; }
+      if(sv.front() != 0.0 || sv.back() != std::floor(sv.back())) r.fail(w + ".param-range", "curve parameter range changed");
+      for(Index e = 0; e < P.n[1]; ++e)
+      {
+        const double d = a[size_t(P.topo.tup(1, 0, e)[0])] - a[size_t(P.topo.tup(1, 0, e)[1])];
+        if(std::fabs(d) != h) { r.fail(w + ".param-edge", "part edge #" + vm::str(e) + " joins vertices with parameters " + vm::str(a[size_t(P.topo.tup(1, 0, e)[0])]) + " and " + vm::str(a[size_t(P.topo.tup(1, 0, e)[1])])); return; }
       }
     }
 
@@ -232,6 +278,7 @@ namespace
           r.ctx = "level " + vm::str(lvl - 1) + "->" + vm::str(lvl) + " part '" + p.first + "'";
           vm::check_part_refinement(C, F, ri, p.second, it->second, r, w);
           if(p.second.attr.count("coord")) check_attr(F, it->second, qtot, r, w);
+          if(p.second.attr.count("param")) check_param(it->second, r, w);
           c.count("part_refinements_checked");
         }
         // computed boundary == facets with one adjacent cell
@@ -268,7 +315,15 @@ namespace
           for(int d = 0; d <= dim; ++d) n2[d] = m2.get_num_entities(d);
           vm::extract_topo<Shape_>(T2, m2.get_index_set_holder(), n2);
           vm::TopoInfo t2;
-          vm::check_topology(T2, r, "recompute", &t2);
+          {
+            vm::Rep r2; r2.ctx = r.ctx; r2.cap = 1000;
+            vm::check_topology(T2, r2, "recompute", &t2);
+            bool only21 = !r2.ok();
+            for(auto& x : r2.f) if(x.first != "recompute.subentity<2,1>") only21 = false;
+            if(only21 && vm::ShapeInfo<Shape_>::simplex && dim == 3)
+              r.fail("tetra deduct_topology_from_top: flipped boundary triangle keeps stale <2,1> (CongruencyMapping<Simplex<2>,1>::flip)", r2.f[0].second);
+            else for(auto& x : r2.f) r.fail(x.first, x.second.substr(x.second.find(": ") + 2));
+          }
           for(int d = 1; d < dim; ++d)
           {
             if(T2.n[d] != F.n[d]) r.fail("recompute.count", "IndexCalculator finds " + vm::str(T2.n[d]) + " entities of dim " + vm::str(d) + ", refined mesh has " + vm::str(F.n[d]));
@@ -294,7 +349,7 @@ namespace
 
     static std::string part_class(const std::string& name)
     {
-      if(name == "bnd" || name == "sub" || name == "raw" || name == "cells" || name == "topo" || name == "topocells" || name == "bnd/nest") return name;
+      if(name == "bnd" || name == "sub" || name == "raw" || name == "cells" || name == "topo" || name == "topocells" || name == "loop" || name == "bnd/nest") return name;
       return "file";
     }
 
@@ -552,7 +607,8 @@ namespace
         if(withrefl == 1 && !(n == 3 && (dim == 2 || c.thorough))) continue;
         if(dim == 3 && n > 3 && !c.thorough) continue;
         const std::vector<size_t>& S = *sets[withrefl];
-        size_t total = 1; for(int i = 0; i < nfree; ++i) total *= S.size();
+        const int nfree_here = (withrefl == 1 && dim == 3) ? 2 : nfree; // 3D with reflections: two free cells
+        size_t total = 1; for(int i = 0; i < nfree_here; ++i) total *= S.size();
         for(size_t code = 0; code < total; ++code)
         {
           if(!c.want()) continue;
@@ -560,8 +616,8 @@ namespace
           size_t q = code; std::string gs;
           for(int i = 0; i < n; ++i)
           {
-            size_t gi = (i < nfree) ? S[q % S.size()] : rot[(size_t(i) * 7) % rot.size()];
-            if(i < nfree) q /= S.size();
+            size_t gi = (i < nfree_here) ? S[q % S.size()] : rot[(size_t(i) * 7) % rot.size()];
+            if(i < nfree_here) q /= S.size();
             vm::renumber_cell(ms, size_t(i), G[gi]); gs += (i ? "," : "") + std::to_string(gi);
           }
           ms.name = shape + " star" + std::to_string(n) + " g=(" + gs + ")";
@@ -632,7 +688,7 @@ int main(int argc, char** argv)
     "symmetries (incl. reflections) x {deduced, explicit}; 2D stars of 3-5 cells (all rotations per cell, n=3 also reflections), 3D stars of 3 cells "
     "(two cells over all rotations); 2x2(x2), 3x2(x1) blocks and simplex blocks x 3 vertex numberings x 8 permutation strategies x {deduced, explicit}; "
     "every shipped mesh file <= 2000 cells (depth 1, <= 150 cells depth 2) plain and (<= 400 cells) after Cuthill-McKee permutation; depth 2 (3D pairs 1-2, 3D stars/blocks 1)";
-  spec.bounds_thorough = "as quick with depth 3 (3D stars/blocks 2), 3D stars of 3 cells over all rotations^3 and with reflections, 3D stars of 4-5 cells; "
+  spec.bounds_thorough = "as quick with depth 3 (3D stars/blocks 2), 3D stars of 3 cells over all rotations^3 and (two free cells) with reflections, 3D stars of 4-5 cells (two free cells); "
     "mesh files depth 2 (<= 100 cells depth 3), permutation for all files";
   spec.assumptions = {
     "reference cell numbering (local faces of a cell) is the harness' own formula; FaceIndexMapping is not consulted",
